@@ -19,7 +19,7 @@ BOUNDS = {
 OUTSIDE = "formulas outside the enumerated/sampled/named sets; luby beyond the stated index range"
 GOALS = {"quick": ["conflict_learned", "oracle_sat", "oracle_unsat", "max_iter", "luby"],
          "thorough": ["conflict_learned", "oracle_sat", "oracle_unsat", "max_iter", "luby"]}
-OPTS = {"quick": {"path_wall": 4.0}, "thorough": {"path_wall": 6.0}}
+OPTS = {"quick": {"path_wall": 10.0}, "thorough": {"path_wall": 12.0}}
 
 
 def luby_ref(n):
